@@ -468,6 +468,53 @@ Example C06_ex_marshal_heap :
     /\ h2 = [[9]; [1; 2; 7]; [1]]%N /\ pdata h2 p = [1; 2]%N.
 Proof. do 3 eexists. repeat split; vm_compute; reflexivity. Qed.
 
+(* ---- phase 5: the remaining bodies, and the closing obligation *)
+From GoMC Require Proofs.C06_skel_rest.
+Import C06_skel_rest.
+(* PluginMessageData.ReadFrom (io.ReadAll): the value is ALL of the remaining input, the count its length, and
+   nothing is left - `rest` is always empty, the field can only be the last one *)
+Theorem C06_plugin_read_is_skeleton : forall s,
+  plugin_interp (snd C06gen.skel_PluginMessageData_ReadFrom) s = r_plugin s
+  /\ (forall v n rest, r_plugin s = FOk (v, n) rest -> v = s /\ n = lenN s /\ rest = []).
+Proof. intros s. split; [apply PluginMessageData_ReadFrom_is_skel|apply plugin_rest_empty]. Qed.
+(* the counters behind every count an NBT field reports: one Write call through countingWriter adds exactly the
+   bytes passed on, one Read call through countingReader adds exactly the bytes delivered, and the model's
+   nbt_counting is the decoder read through that counter *)
+Theorem C06_counting_wrappers_are_skeleton :
+  (forall acc p, cw_step C06gen.skel_countingWriter_Write acc p = ((fst acc ++ p)%list, (snd acc + lenN p)%N))
+  /\ (forall cn k, cr_step C06gen.skel_countingReader_Read cn k = (cn + k)%N)
+  /\ (forall A (d : dec A) n s,
+        run_flat (counting_via (cr_step C06gen.skel_countingReader_Read) d n) s = run_flat (nbt_counting d n) s).
+Proof. split; [exact countingWriter_Write_is_skel|split; [exact countingReader_Read_is_skel|intros; apply counting_is_skel]]. Qed.
+Theorem C06_nbtfield_write_is_skeleton : forall enc,
+  nbt_write (snd C06gen.skel_NBTField_WriteTo) (match enc with None => true | Some _ => false end)
+            (match enc with None => []%list | Some ws => ws end) = Some (w_nbtfield enc).
+Proof. exact NBTField_WriteTo_is_skel. Qed.
+(* Opt.has: *bool chains and func() bool give the flag; the panic is reached exactly when the pointer chain of the
+   Has VALUE ends in something else.  has() reads nothing from the stream, so peer input cannot reach the panic
+   of an Opt whose Has is a (pointer to a) bool or a func() bool *)
+Theorem C06_opt_has_is_skeleton :
+  (forall v fuel, (has_depth v < fuel)%nat -> has_interp (snd C06gen.skel_Opt_has) fuel v = Some (has_model v))
+  /\ (forall v, has_model v = GoInt.GoPanic <-> has_bottom v = HOther)
+  /\ (forall v, has_bottom v <> HOther -> exists b, has_model v = GoInt.GoRet b).
+Proof. split; [exact Opt_has_is_skel|split; [exact has_panic_iff|exact has_wellformed_total]]. Qed.
+(* NBT(v) builds a field with the STRICT decoder; Array(ary) is Ary with the VarInt prefix *)
+Theorem C06_constructors_are_skeleton :
+  nbt_ctor (snd C06gen.skel_NBT) = Some false /\ array_ctor (snd C06gen.skel_Array) = Some LVarInt
+  /\ (forall eEND A (dl ds : dec A),
+        nbt_read2 eEND A dl ds false (snd C06gen.skel_NBTField_ReadFrom) (ast20 A) = r_nbtfield eEND ds).
+Proof. split; [exact NBT_is_skel|split; [exact Array_is_skel|intros; exact (NBTField_ReadFrom_allow_is_skel eEND A dl ds false)]]. Qed.
+(* CLOSING OBLIGATION: every function the source declares in types.go, util.go, builder.go and Marshal /
+   Packet.Scan of packet.go (C06gen.all_funcs, regenerated on every run) is one of ten named non-codec helpers
+   or is, in source order, the name of an entry of `covered` - a list whose entries carry the PROOF of the
+   function's tie / interpretation lemma.  A function added to these files without a lemma breaks this. *)
+Theorem C06_every_body_interpreted :
+  filter (fun n => negb (mem_str n helpers)) C06gen.all_funcs = map c_name covered
+  /\ forallb (fun h => mem_str h C06gen.all_funcs) helpers = true.
+Proof. exact every_body_interpreted. Qed.
+Example C06_ex_covered : length covered = 66%nat /\ length C06gen.all_funcs = 76%nat /\ Forall (fun c => c_stmt c) covered.
+Proof. split; [reflexivity|split; [reflexivity|]]. apply Forall_forall. intros c _. exact (c_proof c). Qed.
+
 Print Assumptions C06_roundtrip.
 Print Assumptions C06_layout.
 Print Assumptions C06_position_layout.
@@ -541,3 +588,9 @@ Print Assumptions C06_rawbytes_write_translated.
 Print Assumptions C06_fixed_read_translated.
 Print Assumptions C06_lenprefixed_write_translated.
 Print Assumptions C06_lenprefixed_read_translated.
+Print Assumptions C06_plugin_read_is_skeleton.
+Print Assumptions C06_counting_wrappers_are_skeleton.
+Print Assumptions C06_nbtfield_write_is_skeleton.
+Print Assumptions C06_opt_has_is_skeleton.
+Print Assumptions C06_constructors_are_skeleton.
+Print Assumptions C06_every_body_interpreted.
